@@ -424,6 +424,14 @@ boost::optional<ndsize_t> getSetIndex(const double position, std::vector<std::st
     if (position < 0 && (match != PositionMatch::Greater && match != PositionMatch::GreaterOrEqual)) {
         return index;
     }
+    // a position of 2^64 or more (or NaN) has no representable index of its own and converting it to ndsize_t is undefined:
+    // Less / LessOrEqual answer with the last index of a bounded dimension, everything else has no index
+    if (!(position < 18446744073709551616.0)) {
+        if (position == position && labels.size() > 0 && (match == PositionMatch::Less || match == PositionMatch::LessOrEqual)) {
+            index = labels.size() - 1;
+        }
+        return index;
+    }
     double tmp;
 
     if (match == PositionMatch::Greater || match == PositionMatch::GreaterOrEqual) {
@@ -820,6 +828,14 @@ DataFrameDimension::DataFrameDimension(const DataFrameDimension &other)
 boost::optional<ndsize_t> getDataFrameIndex(const double position, const ndsize_t tick_count, const PositionMatch match) {
     boost::optional<ndsize_t> index;
     if (position < 0 && (match != PositionMatch::Greater && match != PositionMatch::GreaterOrEqual)) {
+        return index;
+    }
+    // a position of 2^64 or more (or NaN) has no representable index of its own and converting it to ndsize_t is undefined:
+    // Less / LessOrEqual answer with the last index of a bounded dimension, everything else has no index
+    if (!(position < 18446744073709551616.0)) {
+        if (position == position && tick_count > 0 && (match == PositionMatch::Less || match == PositionMatch::LessOrEqual)) {
+            index = tick_count - 1;
+        }
         return index;
     }
     double tmp;
